@@ -187,6 +187,8 @@ func (rt *runtime) cmplEvaluateNodeBracketExpression(node *nodeBracketExpression
 func (rt *runtime) cmplEvaluateNodeCallExpression(node *nodeCallExpression, withArgumentList []interface{}) Value {
 	this := Value{}
 	callee := rt.cmplEvaluateNodeExpression(node.callee)
+	// The function value is read before the arguments are evaluated (ES5 11.2.3).
+	vl := callee.resolve()
 
 	argumentList := []Value{}
 	if withArgumentList != nil {
@@ -230,7 +232,6 @@ func (rt *runtime) cmplEvaluateNodeCallExpression(node *nodeCallExpression, with
 		file:   rt.scope.frame.file,
 	}
 
-	vl := callee.resolve()
 	if !vl.IsFunction() {
 		if name == "" {
 			// FIXME Maybe typeof?
@@ -266,6 +267,8 @@ func (rt *runtime) cmplEvaluateNodeDotExpression(node *nodeDotExpression) Value 
 
 func (rt *runtime) cmplEvaluateNodeNewExpression(node *nodeNewExpression) Value {
 	callee := rt.cmplEvaluateNodeExpression(node.callee)
+	// The constructor value is read before the arguments are evaluated (ES5 11.2.2).
+	vl := callee.resolve()
 
 	argumentList := []Value{}
 	for _, argumentNode := range node.argumentList {
@@ -294,7 +297,6 @@ func (rt *runtime) cmplEvaluateNodeNewExpression(node *nodeNewExpression) Value 
 		atv = at(callee.idx)
 	}
 
-	vl := callee.resolve()
 	if !vl.IsFunction() {
 		if name == "" {
 			// FIXME Maybe typeof?
